@@ -50,7 +50,7 @@ def run(tier):
             p = os.path.join(scratch, "bdl_%d.txt" % ntx)
             with open(p, "w") as fh:
                 fh.write(out)
-            rc, o, err = run_harness(binary, ["bdl", "-in", p, "-workers", str(NCPU)], timeout=3000)
+            rc, o, err = run_harness(binary, ["bdl", "-in", p, "-workers", str(NCPU), "-rush", "6" if quick else "20"], timeout=3000)
             if rc != 0 or not o.strip():
                 raise Infra("bdl harness failed: " + err[-2000:])
             r = json.loads(o)
@@ -58,7 +58,7 @@ def run(tier):
                 raise Infra("no BlockDownloadGen behaviours")
             total_beh += r["behaviours"]
             bdl_runs.append({"NTx": ntx, "depth": depth, "behaviours": r["behaviours"], "event_sequences": r["event_sequences"],
-                             "events": r["events"], "final_results": r["final_results"],
+                             "events": r["events"], "final_results": r["final_results"], "racing_runs": r.get("racing_runs", 0),
                              "goroutines_parked_in_downloader": r["goroutines_parked_in_downloader"],
                              "diverging": sum(r["signatures"].values())})
             for s in (r.get("samples") or [])[:1]:
